@@ -94,10 +94,10 @@ pub fn adaptor_case(ctx: &mut Ctx, fl: Flavour, offers: &[usize], dgrams: &[Vec<
 }
 
 #[derive(Clone, Debug)]
-pub enum AOp { Rd(usize), Fl, Wr(Vec<u8>), Idle }
-fn aop_tok(o: &AOp) -> String { match o { AOp::Rd(n) => n.to_string(), AOp::Fl => "f".into(), AOp::Wr(b) => format!("w{}", hex(b)), AOp::Idle => "t".into() } }
+pub enum AOp { Rd(usize), Fl, Wr(Vec<u8>), Idle, Rx(usize) }
+fn aop_tok(o: &AOp) -> String { match o { AOp::Rd(n) => n.to_string(), AOp::Fl => "f".into(), AOp::Wr(b) => format!("w{}", hex(b)), AOp::Idle => "t".into(), AOp::Rx(n) => format!("x{}", n) } }
 fn aop_parse(t: &str) -> Option<AOp> {
-    if t == "f" { Some(AOp::Fl) } else if t == "t" { Some(AOp::Idle) } else if let Some(h) = t.strip_prefix('w') { Some(AOp::Wr(unhex(h))) } else { t.parse().ok().map(AOp::Rd) }
+    if t == "f" { Some(AOp::Fl) } else if t == "t" { Some(AOp::Idle) } else if let Some(n) = t.strip_prefix('x') { n.parse().ok().map(AOp::Rx) } else if let Some(h) = t.strip_prefix('w') { Some(AOp::Wr(unhex(h))) } else { t.parse().ok().map(AOp::Rd) }
 }
 
 /// adaptor level, both halves: reads with chosen slice sizes interleaved with flushes and writes on the same adaptor.
@@ -132,6 +132,16 @@ pub fn ops_case(ctx: &mut Ctx, fl: Flavour, ops: &[AOp], dgrams: &[Vec<u8>]) {
                     },
                     AOp::Fl => { let _ = s.flush(); },
                     AOp::Wr(b) => { let _ = s.write(&b); },
+                    // read_exact: one caller buffer filled by as many reads as it takes (enough datagrams are sent first)
+                    AOp::Rx(n) => {
+                        while avail - served < n && sent < dg.len() { peer.send(&dg[sent]).unwrap(); avail += dg[sent].len().min(1020); sent += 1; }
+                        if avail - served < n { break; }
+                        let mut buf = vec![0u8; n];
+                        match s.read_exact(&mut buf) {
+                            Ok(()) => { served += n; out.push(buf); },
+                            Err(_) => { out.push(b"BLOCKED".to_vec()); break; },
+                        }
+                    },
                     // a read while nothing is buffered and nothing has been sent: the receive call times out; whatever it
                     // does return instead is recorded
                     AOp::Idle => if served == avail {
@@ -173,6 +183,15 @@ pub fn ops_case(ctx: &mut Ctx, fl: Flavour, ops: &[AOp], dgrams: &[Vec<u8>]) {
                         },
                         AOp::Fl => { let _ = AsyncWriteExt::flush(&mut s).await; },
                         AOp::Wr(b) => { let _ = AsyncWriteExt::write(&mut s, &b).await; },
+                        AOp::Rx(n) => {
+                            while avail - served < n && sent < dg.len() { peer.send(&dg[sent]).unwrap(); avail += dg[sent].len().min(1020); sent += 1; }
+                            if avail - served < n { break; }
+                            let mut buf = vec![0u8; n];
+                            match tokio::time::timeout(Duration::from_millis(300), AsyncReadExt::read_exact(&mut s, &mut buf)).await {
+                                Ok(Ok(_)) => { served += n; out.push(buf); },
+                                _ => { out.push(b"BLOCKED".to_vec()); break; },
+                            }
+                        },
                         AOp::Idle => if served == avail {
                             let mut buf = vec![0u8; 64];
                             if let Ok(Ok(k)) = tokio::time::timeout(Duration::from_millis(15), AsyncReadExt::read(&mut s, &mut buf)).await { served += k; out.push(buf[..k].to_vec()); }
@@ -407,11 +426,19 @@ pub fn run(ctx: &mut Ctx) {
             let dg: Vec<Vec<u8>> = (0..k).map(|_| { let n = *ctx.rng.pick(&[4usize, 8, 12, 132, 600, 1020]); (0..n).map(|_| ctx.rng.byte()).collect() }).collect();
             let style = ctx.rng.below(3);
             let ops: Vec<AOp> = (0..300).map(|_| match ctx.rng.below(6) {
-                0 => if ctx.rng.chance(1, 4) { AOp::Idle } else { AOp::Fl },
+                0 => if ctx.rng.chance(1, 4) { AOp::Idle } else if ctx.rng.chance(1, 3) { AOp::Rx(1 + ctx.rng.below(40) as usize) } else { AOp::Fl },
                 1 => { let n = if ctx.rng.chance(1, 6) { *ctx.rng.pick(&[255usize, 256, 257, 488, 1020]) } else { 1 + ctx.rng.below(12) as usize }; AOp::Wr((0..n).map(|_| ctx.rng.byte()).collect()) },
                 _ => AOp::Rd(match style { 0 => 1 + ctx.rng.below(8) as usize, 1 => 1 + ctx.rng.below(300) as usize, _ => 1 + ctx.rng.below(2000) as usize }),
             }).collect();
             ops_case(ctx, fl, &ops, &dg);
+        }
+    }
+    // a caller that fills ONE buffer with several reads (read_exact): blocks across datagram boundaries, larger than a datagram,
+    // mixed with ordinary reads that leave a datagram half served
+    for fl in [Flavour::Blocking, Flavour::Tokio] {
+        let dgs: Vec<Vec<u8>> = (0..6u8).map(|k| (0..(5 + 3 * k)).map(|i| k.wrapping_mul(40).wrapping_add(i)).collect()).collect();
+        for ops in [vec![AOp::Rx(7), AOp::Rx(7), AOp::Rx(7)], vec![AOp::Rx(20), AOp::Rd(3), AOp::Rx(9)], vec![AOp::Rd(2), AOp::Rx(4), AOp::Rx(11), AOp::Rd(64)], vec![AOp::Rx(1), AOp::Rx(4), AOp::Rx(5), AOp::Rx(8), AOp::Rx(30)]] {
+            ops_case(ctx, fl, &ops, &dgs);
         }
     }
     // a receive attempt that fails (time-out: nothing to receive) before, between and after datagrams served in pieces
